@@ -19,11 +19,12 @@ def subscribedTopics (ops : List BusOp) (k : Cid) : List Topic :=
 /-- every (consumer, topic) pair is subscribed at most once in the history. -/
 def SubscribeOnce (ops : List BusOp) : Prop := ∀ k, (subscribedTopics ops k).Nodup
 
-/-- handlers publish only "downstream": to topics of strictly larger rank than every topic
-the publishing consumer ever subscribes to.  In particular a handler never publishes to a
-topic that is being delivered further down the call stack, nor to one of its own. -/
-def Stratified (h : Handler) (ops : List BusOp) (rank : Topic → Nat) : Prop :=
-  ∀ k v T' v', (T', v') ∈ h k v → ∀ T ∈ subscribedTopics ops k, rank T < rank T'
+/-- handlers publish only "downstream": reacting to a value that arrived on topic `T`, a
+handler publishes only to topics of strictly larger rank than `T`.  In particular a handler
+never publishes to a topic that is being delivered further down the call stack (the reading of
+"handlers publish to OTHER topics"); it MAY publish to a topic its own consumer subscribes to. -/
+def Stratified (h : Handler) (rank : Topic → Nat) : Prop :=
+  ∀ k T v T' v', (T', v') ∈ h k T v → rank T < rank T'
 
 /-! ## topic naming: general string lemmas -/
 
@@ -235,47 +236,46 @@ theorem pushAll_step (n : Nat) (ih : ∀ m < n, PushOK h ops rank m) (r : Nat)
       have h1' := h1.mono (hps (T, v) (by simp))
       exact h1'.trans (ihps _ (hwf.of_subs_eq h1.subs) (fun p hp => hps p (by simp [hp])))
 
-theorem deliver_step (hstrat : Stratified h ops rank) (n : Nat) (ih : ∀ m < n, PushOK h ops rank m)
-    (b : Bus) (k : Cid) (T : Topic) (v : Int) (hwf : Bus.WF ops b)
-    (hk : T ∈ subscribedTopics ops k) :
+theorem deliver_step (hstrat : Stratified h rank) (n : Nat) (ih : ∀ m < n, PushOK h ops rank m)
+    (b : Bus) (k : Cid) (T : Topic) (v : Int) (hwf : Bus.WF ops b) :
     Bus.Step rank (rank T + 1) (b.addRecv [(k, T, v)]) (Bus.deliver h n b k T v) := by
   rw [Bus.deliver.eq_1]
   exact pushAll_step n ih _ _ _ (hwf.of_subs_eq rfl)
-    (fun p hp => hstrat k v p.1 p.2 hp T hk)
+    (fun p hp => hstrat k T v p.1 p.2 hp)
 
-theorem deliverAll_step (hstrat : Stratified h ops rank) (n : Nat)
+theorem deliverAll_step (hstrat : Stratified h rank) (n : Nat)
     (ih : ∀ m < n, PushOK h ops rank m) (T : Topic) (v : Int) (ks : List Cid) (b : Bus)
-    (hwf : Bus.WF ops b) (hks : ∀ k ∈ ks, T ∈ subscribedTopics ops k) :
+    (hwf : Bus.WF ops b) :
     Bus.Step rank (rank T + 1) (b.addRecv (ks.map (fun k => (k, T, v))))
       (Bus.deliverAll h n T v ks b) := by
   induction ks generalizing b with
   | nil => rw [Bus.deliverAll.eq_1, List.map_nil, Bus.addRecv_nil]; exact Bus.Step.refl ..
   | cons k ks ihks =>
     rw [Bus.deliverAll.eq_2]
-    have h1 := deliver_step hstrat n ih b k T v hwf (hks k (by simp))
+    have h1 := deliver_step hstrat n ih b k T v hwf
     have hwf1 : Bus.WF ops (Bus.deliver h n b k T v) := hwf.of_subs_eq h1.subs
-    have h2 := ihks _ hwf1 (fun k' hk' => hks k' (by simp [hk']))
+    have h2 := ihks _ hwf1
     have h3 := h1.addRecv (ks.map (fun k => (k, T, v))) (by simp)
     rw [Bus.addRecv_addRecv] at h3
     exact h3.trans h2
 
-theorem replay_step (hstrat : Stratified h ops rank) (n : Nat)
+theorem replay_step (hstrat : Stratified h rank) (n : Nat)
     (ih : ∀ m < n, PushOK h ops rank m) (k : Cid) (T : Topic) (vs : List Int) (b : Bus)
-    (hwf : Bus.WF ops b) (hk : T ∈ subscribedTopics ops k) :
+    (hwf : Bus.WF ops b) :
     Bus.Step rank (rank T + 1) (b.addRecv (vs.map (fun v => (k, T, v))))
       (Bus.replay h n k T vs b) := by
   induction vs generalizing b with
   | nil => rw [Bus.replay, List.map_nil, Bus.addRecv_nil]; exact Bus.Step.refl ..
   | cons v vs ihvs =>
     rw [Bus.replay]
-    have h1 := deliver_step hstrat n ih b k T v hwf hk
+    have h1 := deliver_step hstrat n ih b k T v hwf
     have hwf1 : Bus.WF ops (Bus.deliver h n b k T v) := hwf.of_subs_eq h1.subs
     have h2 := ihvs _ hwf1
     have h3 := h1.addRecv (vs.map (fun v => (k, T, v))) (by simp)
     rw [Bus.addRecv_addRecv] at h3
     exact h3.trans h2
 
-theorem push_step (hstrat : Stratified h ops rank) (n : Nat) : PushOK h ops rank n := by
+theorem push_step (hstrat : Stratified h rank) (n : Nat) : PushOK h ops rank n := by
   induction n using Nat.strongRecOn with
   | _ n ih =>
     intro b T v hwf
@@ -287,7 +287,6 @@ theorem push_step (hstrat : Stratified h ops rank) (n : Nat) : PushOK h ops rank
       show Bus.Step rank (rank T) b (Bus.deliverAll h n T v (b.subsOf T) b1)
       have hwf1 : Bus.WF ops b1 := hwf.of_subs_eq rfl
       have h2 := deliverAll_step hstrat n (fun m hm => ih m (by omega)) T v (b.subsOf T) b1 hwf1
-        (fun k hk => hwf.2 k T hk)
       refine Bus.Step.trans ?_ (h2.mono (Nat.le_succ _))
       refine ⟨rfl, fun T' => ?_⟩
       by_cases hT : T = T'
@@ -331,7 +330,7 @@ theorem subscribedTopics_produce (T : Topic) (v : Int) (xs : List BusOp) (k : Ci
 section Fold
 variable {h : Handler} {ops : List BusOp} {rank : Topic → Nat}
 
-theorem subscribe_inv (hstrat : Stratified h ops rank) (n : Nat) (k : Cid) (Ts : List Topic)
+theorem subscribe_inv (hstrat : Stratified h rank) (n : Nat) (k : Cid) (Ts : List Topic)
     (b : Bus) (hinv : b.Inv) (hwf : Bus.WF ops b)
     (hTs : ∀ T ∈ Ts, T ∈ subscribedTopics ops k) (hnd : Ts.Nodup)
     (hnew : ∀ T ∈ Ts, k ∉ b.subsOf T) :
@@ -369,7 +368,6 @@ theorem subscribe_inv (hstrat : Stratified h ops rank) (n : Nat) (k : Cid) (Ts :
           · exact hTs T (by simp)
         · exact hwf.2 k' T'
     have hstep := replay_step hstrat n (fun m _ => push_step hstrat m) k T (b.log T) b1 hwf1
-      (hTs T (by simp))
     have hinv1 : (b1.addRecv ((b.log T).map (fun v => (k, T, v)))).Inv := by
       intro k' T'
       rw [Bus.received_addRecv, recvOf_map_val, Bus.addRecv_subsOf, hsub1]
@@ -408,7 +406,7 @@ theorem subscribe_inv (hstrat : Stratified h ops rank) (n : Nat) (k : Cid) (Ts :
       · exact Or.inl hk''
     · exact Or.inr ⟨rfl, by simp [hT']⟩
 
-theorem fold_inv (hstrat : Stratified h ops rank) (honce : SubscribeOnce ops) (n : Nat)
+theorem fold_inv (hstrat : Stratified h rank) (honce : SubscribeOnce ops) (n : Nat)
     (post pre : List BusOp) (b : Bus) (heq : pre ++ post = ops) (hinv : b.Inv)
     (hwf : Bus.WF ops b) (hpre : ∀ k T, k ∈ b.subsOf T → T ∈ subscribedTopics pre k) :
     (post.foldl (Bus.apply h n) b).Inv := by
@@ -448,7 +446,7 @@ theorem fold_inv (hstrat : Stratified h ops rank) (honce : SubscribeOnce ops) (n
       · exact List.mem_append_left _ (hpre k' T' hk'')
       · simp [hT']
 
-theorem bus_inv_of_history (hstrat : Stratified h ops rank) (honce : SubscribeOnce ops) (n : Nat) :
+theorem bus_inv_of_history (hstrat : Stratified h rank) (honce : SubscribeOnce ops) (n : Nat) :
     (ops.foldl (Bus.apply h n) {}).Inv := by
   refine fold_inv hstrat honce n ops [] {} rfl ?_ ?_ ?_
   · intro k T; simp [Bus.received, Bus.subsOf, agetD, alookup]
@@ -464,7 +462,7 @@ end Fold
 section NoHandlers
 
 /-- the handler that never publishes -/
-abbrev noHandler : Handler := fun _ _ => []
+abbrev noHandler : Handler := fun _ _ _ => []
 
 theorem deliver_noHandler (n : Nat) (b : Bus) (k : Cid) (T : Topic) (v : Int) :
     Bus.deliver noHandler n b k T v = b.addRecv [(k, T, v)] := by
@@ -519,5 +517,267 @@ theorem fold_noHandler_log (ops : List BusOp) (n : Nat) (b : Bus) (T : Topic) :
       simp
 
 end NoHandlers
+
+end Tickit
+
+/-! ## nothing is dropped: logs only grow, and every recorded delivery's publications are logged -/
+
+namespace Tickit
+
+/-- subscriptions unchanged, logs only grow (unconditional: any handler, any fuel). -/
+structure Bus.Le (b b' : Bus) : Prop where
+  subs : b'.subs = b.subs
+  logs : ∀ T x, x ∈ b.log T → x ∈ b'.log T
+
+theorem Bus.Le.refl (b : Bus) : Bus.Le b b := ⟨rfl, fun _ _ hx => hx⟩
+
+theorem Bus.Le.trans {b b' b'' : Bus} (h₁ : Bus.Le b b') (h₂ : Bus.Le b' b'') : Bus.Le b b'' :=
+  ⟨h₂.subs.trans h₁.subs, fun T x hx => h₂.logs T x (h₁.logs T x hx)⟩
+
+theorem Bus.log_setTopic (b : Bus) (T : Topic) (l : List Int) (T' : Topic) :
+    ({ b with topics := upsert b.topics T l } : Bus).log T' = if T = T' then l else b.log T' := by
+  simp only [Bus.log, agetD_upsert]
+
+theorem Bus.le_setTopic (b : Bus) (T : Topic) (v : Int) :
+    Bus.Le b { b with topics := upsert b.topics T (b.log T ++ [v]) } := by
+  refine ⟨rfl, fun T' x hx => ?_⟩
+  rw [Bus.log_setTopic]
+  split
+  · rename_i hT
+    subst hT
+    exact List.mem_append_left _ hx
+  · exact hx
+
+section LogsGrow
+variable {h : Handler}
+
+def PushLe (h : Handler) (n : Nat) : Prop := ∀ b T v, Bus.Le b (Bus.push h n b T v)
+
+theorem pushAll_le (n : Nat) (ih : ∀ m < n, PushLe h m) (ps : List (Topic × Int)) (b : Bus) :
+    Bus.Le b (Bus.pushAll h n ps b) := by
+  induction ps generalizing b with
+  | nil => rw [Bus.pushAll.eq_1]; exact Bus.Le.refl _
+  | cons p ps ihps =>
+    obtain ⟨T, v⟩ := p
+    cases n with
+    | zero => rw [Bus.pushAll.eq_2 h _ b (by simp)]; exact Bus.Le.refl _
+    | succ n =>
+      rw [Bus.pushAll.eq_3]
+      exact (ih n (by omega) b T v).trans (ihps _)
+
+theorem deliver_le (n : Nat) (ih : ∀ m < n, PushLe h m) (b : Bus) (k : Cid) (T : Topic) (v : Int) :
+    Bus.Le b (Bus.deliver h n b k T v) := by
+  rw [Bus.deliver.eq_1]
+  have h2 := pushAll_le n ih (h k T v) { b with recv := b.recv ++ [(k, T, v)] }
+  exact ⟨h2.subs, h2.logs⟩
+
+theorem deliverAll_le (n : Nat) (ih : ∀ m < n, PushLe h m) (T : Topic) (v : Int) (ks : List Cid)
+    (b : Bus) : Bus.Le b (Bus.deliverAll h n T v ks b) := by
+  induction ks generalizing b with
+  | nil => rw [Bus.deliverAll.eq_1]; exact Bus.Le.refl _
+  | cons k ks ihks =>
+    rw [Bus.deliverAll.eq_2]
+    exact (deliver_le n ih b k T v).trans (ihks _)
+
+theorem push_le (n : Nat) : PushLe h n := by
+  induction n using Nat.strongRecOn with
+  | _ n ih =>
+    intro b T v
+    cases n with
+    | zero => rw [Bus.push.eq_1]; exact Bus.Le.refl _
+    | succ n =>
+      rw [Bus.push.eq_2]
+      exact (Bus.le_setTopic b T v).trans
+        (deliverAll_le n (fun m hm => ih m (by omega)) T v _ _)
+
+/-- a `push` with fuel `≥ 1` logs its value. -/
+theorem push_succ_mem (n : Nat) (b : Bus) (T : Topic) (v : Int) :
+    v ∈ (Bus.push h (n + 1) b T v).log T := by
+  rw [Bus.push.eq_2]
+  refine (deliverAll_le n (fun m _ => push_le m) T v _ _).logs T v ?_
+  rw [Bus.log_setTopic, if_pos rfl]
+  simp
+
+theorem replay_le (n : Nat) (k : Cid) (T : Topic) (vs : List Int) (b : Bus) :
+    Bus.Le b (Bus.replay h n k T vs b) := by
+  induction vs generalizing b with
+  | nil => rw [Bus.replay]; exact Bus.Le.refl _
+  | cons v vs ihvs =>
+    rw [Bus.replay]
+    exact (deliver_le n (fun m _ => push_le m) b k T v).trans (ihvs _)
+
+theorem subscribe_logs (n : Nat) (k : Cid) (Ts : List Topic) (b : Bus) (T' : Topic) (x : Int)
+    (hx : x ∈ b.log T') : x ∈ (Bus.subscribe h n k Ts b).log T' := by
+  induction Ts generalizing b with
+  | nil => rw [Bus.subscribe]; exact hx
+  | cons T Ts ihTs =>
+    rw [Bus.subscribe]
+    refine ihTs _ ?_
+    exact (replay_le n k T _ _).logs T' x hx
+
+theorem apply_logs (n : Nat) (b : Bus) (op : BusOp) (T' : Topic) (x : Int) (hx : x ∈ b.log T') :
+    x ∈ (Bus.apply h n b op).log T' := by
+  cases op with
+  | subscribe k Ts => exact subscribe_logs n k Ts b T' x hx
+  | produce T v => exact (push_le n b T v).logs T' x hx
+
+theorem fold_logs (n : Nat) (ops : List BusOp) (b : Bus) (T' : Topic) (x : Int)
+    (hx : x ∈ b.log T') : x ∈ (ops.foldl (Bus.apply h n) b).log T' := by
+  induction ops generalizing b with
+  | nil => exact hx
+  | cons op ops ih => rw [List.foldl_cons]; exact ih _ (apply_logs n b op T' x hx)
+
+theorem fold_produced_logged (n : Nat) (ops : List BusOp) (b : Bus) (T : Topic) (v : Int)
+    (hp : BusOp.produce T v ∈ ops) : v ∈ (ops.foldl (Bus.apply h (n + 1)) b).log T := by
+  induction ops generalizing b with
+  | nil => cases hp
+  | cons op ops ih =>
+    rw [List.foldl_cons]
+    rcases List.mem_cons.mp hp with rfl | hp
+    · exact fold_logs _ _ _ _ _ (push_succ_mem n b T v)
+    · exact ih _ hp
+
+end LogsGrow
+
+/-- every recorded delivery's handler publications are in the logs. -/
+def Bus.Closed (h : Handler) (b : Bus) : Prop :=
+  ∀ e ∈ b.recv, ∀ p ∈ h e.1 e.2.1 e.2.2, p.2 ∈ b.log p.1
+
+/-- `Le`, and every NEW recorded delivery has its handler's publications logged. -/
+structure Bus.Grow (h : Handler) (b b' : Bus) : Prop where
+  le : Bus.Le b b'
+  recv : ∀ e ∈ b'.recv, e ∈ b.recv ∨ ∀ p ∈ h e.1 e.2.1 e.2.2, p.2 ∈ b'.log p.1
+
+theorem Bus.Grow.refl (h : Handler) (b : Bus) : Bus.Grow h b b :=
+  ⟨Bus.Le.refl b, fun _ he => Or.inl he⟩
+
+theorem Bus.Grow.trans {h : Handler} {b b' b'' : Bus} (h₁ : Bus.Grow h b b')
+    (h₂ : Bus.Grow h b' b'') : Bus.Grow h b b'' := by
+  refine ⟨h₁.le.trans h₂.le, fun e he => ?_⟩
+  rcases h₂.recv e he with he' | hc
+  · rcases h₁.recv e he' with he'' | hc
+    · exact Or.inl he''
+    · exact Or.inr (fun p hp => h₂.le.logs _ _ (hc p hp))
+  · exact Or.inr hc
+
+theorem Bus.Grow.closed {h : Handler} {b b' : Bus} (hg : Bus.Grow h b b') (hc : b.Closed h) :
+    b'.Closed h := by
+  intro e he p hp
+  rcases hg.recv e he with he' | hc'
+  · exact hg.le.logs _ _ (hc e he' p hp)
+  · exact hc' p hp
+
+section Logged
+variable {h : Handler} {rank : Topic → Nat} {N : Nat}
+
+/-- a push to `T` with fuel `n` is deep enough when `2 * (N - rank T) ≤ n`: the nesting depth of a
+push is at most the rank of its topic, and every level costs two units of fuel. -/
+def PushG (h : Handler) (rank : Topic → Nat) (N n : Nat) : Prop :=
+  ∀ b T v, 2 * N ≤ n + 2 * rank T → Bus.Grow h b (Bus.push h n b T v)
+
+theorem pushAll_grow (hN : ∀ T, rank T < N) (n : Nat) (ih : ∀ m < n, PushG h rank N m)
+    (ps : List (Topic × Int)) (b : Bus)
+    (hps : ∀ p ∈ ps, 2 * N + 1 ≤ n + 2 * rank p.1) :
+    Bus.Grow h b (Bus.pushAll h n ps b) ∧ ∀ p ∈ ps, p.2 ∈ (Bus.pushAll h n ps b).log p.1 := by
+  induction ps generalizing b with
+  | nil => rw [Bus.pushAll.eq_1]; exact ⟨Bus.Grow.refl h b, by simp⟩
+  | cons p ps ihps =>
+    obtain ⟨T, v⟩ := p
+    have hT : 2 * N + 1 ≤ n + 2 * rank T := hps (T, v) (by simp)
+    have hNT := hN T
+    cases n with
+    | zero => omega
+    | succ n =>
+      rw [Bus.pushAll.eq_3]
+      have h1 : Bus.Grow h b (Bus.push h n b T v) := ih n (by omega) b T v (by omega)
+      have hv : v ∈ (Bus.push h n b T v).log T := by
+        obtain ⟨m, rfl⟩ : ∃ m, n = m + 1 := ⟨n - 1, by omega⟩
+        exact push_succ_mem m b T v
+      obtain ⟨h2, hall⟩ := ihps _ (fun p hp => hps p (by simp [hp]))
+      refine ⟨h1.trans h2, fun p hp => ?_⟩
+      rcases List.mem_cons.mp hp with rfl | hp
+      · exact h2.le.logs _ _ hv
+      · exact hall p hp
+
+theorem deliver_grow (hstrat : Stratified h rank) (hN : ∀ T, rank T < N) (n : Nat)
+    (ih : ∀ m < n, PushG h rank N m) (b : Bus) (k : Cid) (T : Topic) (v : Int)
+    (hf : 2 * N ≤ n + 1 + 2 * rank T) : Bus.Grow h b (Bus.deliver h n b k T v) := by
+  rw [Bus.deliver.eq_1]
+  obtain ⟨hg, hall⟩ := pushAll_grow hN n ih (h k T v) { b with recv := b.recv ++ [(k, T, v)] }
+    (fun p hp => by have := hstrat k T v p.1 p.2 hp; omega)
+  refine ⟨⟨hg.le.subs, hg.le.logs⟩, fun e he => ?_⟩
+  rcases hg.recv e he with he' | hc
+  · simp only [List.mem_append, List.mem_singleton] at he'
+    rcases he' with he' | rfl
+    · exact Or.inl he'
+    · exact Or.inr hall
+  · exact Or.inr hc
+
+theorem deliverAll_grow (hstrat : Stratified h rank) (hN : ∀ T, rank T < N) (n : Nat)
+    (ih : ∀ m < n, PushG h rank N m) (T : Topic) (v : Int) (ks : List Cid) (b : Bus)
+    (hf : 2 * N ≤ n + 1 + 2 * rank T) : Bus.Grow h b (Bus.deliverAll h n T v ks b) := by
+  induction ks generalizing b with
+  | nil => rw [Bus.deliverAll.eq_1]; exact Bus.Grow.refl h b
+  | cons k ks ihks =>
+    rw [Bus.deliverAll.eq_2]
+    exact (deliver_grow hstrat hN n ih b k T v hf).trans (ihks _)
+
+theorem push_grow (hstrat : Stratified h rank) (hN : ∀ T, rank T < N) (n : Nat) :
+    PushG h rank N n := by
+  induction n using Nat.strongRecOn with
+  | _ n ih =>
+    intro b T v hf
+    have hNT := hN T
+    cases n with
+    | zero => omega
+    | succ n =>
+      rw [Bus.push.eq_2]
+      have h1 : Bus.Grow h b { b with topics := upsert b.topics T (b.log T ++ [v]) } :=
+        ⟨Bus.le_setTopic b T v, fun _ he => Or.inl he⟩
+      refine h1.trans ?_
+      exact deliverAll_grow hstrat hN n (fun m hm => ih m (by omega)) T v _ _ (by omega)
+
+theorem replay_grow (hstrat : Stratified h rank) (hN : ∀ T, rank T < N) (n : Nat) (k : Cid)
+    (T : Topic) (vs : List Int) (b : Bus) (hf : 2 * N ≤ n + 1 + 2 * rank T) :
+    Bus.Grow h b (Bus.replay h n k T vs b) := by
+  induction vs generalizing b with
+  | nil => rw [Bus.replay]; exact Bus.Grow.refl h b
+  | cons v vs ihvs =>
+    rw [Bus.replay]
+    exact (deliver_grow hstrat hN n (fun m _ => push_grow hstrat hN m) b k T v hf).trans (ihvs _)
+
+theorem subscribe_closed (hstrat : Stratified h rank) (hN : ∀ T, rank T < N) (n : Nat)
+    (hf : 2 * N ≤ n + 1) (k : Cid) (Ts : List Topic) (b : Bus) (hc : b.Closed h) :
+    (Bus.subscribe h n k Ts b).Closed h := by
+  induction Ts generalizing b with
+  | nil => rw [Bus.subscribe]; exact hc
+  | cons T Ts ihTs =>
+    rw [Bus.subscribe]
+    let b1 : Bus := { b with subs := upsert b.subs T (sinsert (b.subsOf T) k) }
+    show (Bus.subscribe h n k Ts (Bus.replay h n k T (b.log T) b1)).Closed h
+    have hc1 : b1.Closed h := fun e he p hp => hc e he p hp
+    have hg := replay_grow hstrat hN n k T (b.log T) b1 (by omega)
+    exact ihTs _ (hg.closed hc1)
+
+theorem fold_closed (hstrat : Stratified h rank) (hN : ∀ T, rank T < N) (n : Nat)
+    (hf : 2 * N ≤ n) (ops : List BusOp) (b : Bus) (hc : b.Closed h) :
+    (ops.foldl (Bus.apply h n) b).Closed h := by
+  induction ops generalizing b with
+  | nil => exact hc
+  | cons op ops ihp =>
+    rw [List.foldl_cons]
+    cases op with
+    | produce T v =>
+      have hg : Bus.Grow h b (Bus.push h n b T v) := push_grow hstrat hN n b T v (by omega)
+      exact ihp _ (hg.closed hc)
+    | subscribe k Ts =>
+      exact ihp _ (subscribe_closed hstrat hN n (by omega) k Ts b hc)
+
+theorem closed_of_history (hstrat : Stratified h rank) (hN : ∀ T, rank T < N) (n : Nat)
+    (hf : 2 * N ≤ n) (ops : List BusOp) : (ops.foldl (Bus.apply h n) {}).Closed h := by
+  refine fold_closed hstrat hN n hf ops {} ?_
+  intro e he; simp at he
+
+end Logged
 
 end Tickit
